@@ -267,6 +267,18 @@ def main(tier, seed, replay=None):
                     bad.append("Cartesian-coordinate file is not read back at the written coordinates")
                 if [str(x) for x in Bc.elements] != st["els"]:
                     bad.append("Cartesian-coordinate file changes elements")
+                if [str(x).lower() for x in Bc.extra_atom_labels] != [x.lower() for x in st["xa_labels"]]:
+                    bad.append("Cartesian-coordinate file read back with extra per-atom columns %s, written with %s" % (list(Bc.extra_atom_labels), st["xa_labels"]))
+                if write(Bc, fract=False) != Tc:
+                    bad.append("re-writing the re-read Cartesian-coordinate file does not give identical text")
+                # read from a Cartesian file, move every atom, write fractional: the moved positions are what a reader must get
+                Bm = read(Tc)
+                Bm.positions = np.array(Bm.positions) + np.array([0.25, -0.125, 0.5])
+                Bmm = read(write(Bm))
+                f_want = (np.array(Bm.positions) @ np.linalg.inv(np.array(Bm.cell))) % 1.0
+                f_got = np.array(Bmm.positions) @ np.linalg.inv(np.array(Bmm.cell))
+                if len(f_want) == len(f_got) and circ(f_want, f_got) > 6e-5:
+                    bad.append("a structure read from a Cartesian-coordinate file, moved and written with fractional coordinates is read back %.2e (fractional) away from where it was moved" % circ(f_want, f_got))
                 # the space-group guard: every declared name other than P1 / P 1 must be refused, whatever it starts with
                 acc_p1 = True
                 names = NON_P1 if ci == 0 else [NON_P1[0]] + [NON_P1[(2 * ci + j) % len(NON_P1)] for j in range(2)]
